@@ -8937,6 +8937,9 @@ ADFI_stack_control(file_index, block_offset->block,
 		   SET_STK, SUBNODE_STK, ADF_NAME_LENGTH + DISK_POINTER_SIZE,
 		   sub_node_entry_disk_data );
 
+        /** a name changed: the remembered link resolution may have used it **/
+last_link_ID = 0.0 ;
+
 } /* end of ADFI_write_sub_node_table_entry */
 /* end of file ADFI_write_sub_node_table_entry.c */
 /* file ADFI_strtok.c */
